@@ -64,7 +64,7 @@ PROPS["C12"] = {
     "undecided": ["serializer round trip for all values (bounded exhaustive only)", "ScopeInfo.__getstate__/__setstate__ (bounded only)"],
 }
 PROPS["C16"] = {
-    "sidecars": ["c16_bytes.py", "c16_decode.py", "c16_file.py"],
+    "sidecars": ["c16_bytes.py", "c16_decode.py", "c16_file.py", "c09_resources.py"],
     "level": "other",
     "claim": "Proof level for the codec/newline selection logic: unicode_to_file_data writes the text with the file's newline convention in the declared "
              "(cookie) encoding, else UTF-8, and reports (never silently replaces) a codec that cannot represent the text; _decode_data uses the declared or "
@@ -140,7 +140,7 @@ PROPS["C13"] = {
     "undecided": ["whole-history coherence for all histories", "concluded data across modules", "auto-import index"],
 }
 PROPS["C09"] = {
-    "sidecars": ["c09_effects.py", "c10_change.py", "c11_leaves.py", "c09_operations.py"],
+    "sidecars": ["c09_effects.py", "c10_change.py", "c11_leaves.py", "c09_operations.py", "c09_resources.py"],
     "level": "exploration",
     "claim": "Mostly a bounded check with an effect monitor: every offset x 12 refactorings computes its changes with every disk mutator intercepted and the disk "
              "snapshot compared; scenarios check announced == touched, inside the project, never ignored.  Deductive kernel: ChangeSet.get_changed_resources "
